@@ -57,3 +57,31 @@ func init() {
 		return fmt.Sprintf("def %s : Bool := %v", f.Lean, found), nil
 	})
 }
+
+func init() {
+	// assign_after_call: in the function, the first assignment whose left side prints as Name comes textually
+	// after the first call whose callee contains First (both exist).  Lean: `def <lean> : Bool`.
+	Register("assign_after_call", func(repo string, f Fact) (string, error) {
+		fset, fd, err := findFunc(repo, f.File, f.Func)
+		if err != nil {
+			return "", err
+		}
+		var pCall, pAssign token.Pos
+		ast.Inspect(fd, func(n ast.Node) bool {
+			switch x := n.(type) {
+			case *ast.CallExpr:
+				if pCall == 0 && strings.Contains(exprString(fset, x.Fun), f.First) {
+					pCall = x.Pos()
+				}
+			case *ast.AssignStmt:
+				for _, l := range x.Lhs {
+					if pAssign == 0 && exprString(fset, l) == f.Name {
+						pAssign = x.Pos()
+					}
+				}
+			}
+			return true
+		})
+		return fmt.Sprintf("def %s : Bool := %v", f.Lean, pCall != 0 && pAssign != 0 && pCall < pAssign), nil
+	})
+}
